@@ -590,11 +590,33 @@ func compactLine(l string) string {
 	if strings.HasPrefix(l, "//") || strings.HasPrefix(l, "#") {
 		return l
 	}
+	// quoted literals are content, not layout: only the text outside of them is compacted
+	var out strings.Builder
+	rest := l
+	for len(rest) > 0 {
+		i := strings.IndexAny(rest, "\"'`")
+		if i < 0 {
+			out.WriteString(compactPlain(rest, strings.HasPrefix(l, "for ")))
+			break
+		}
+		out.WriteString(compactPlain(rest[:i], strings.HasPrefix(l, "for ")))
+		j := strings.IndexByte(rest[i+1:], rest[i])
+		if j < 0 {
+			out.WriteString(rest[i:])
+			break
+		}
+		out.WriteString(rest[i : i+j+2])
+		rest = rest[i+j+2:]
+	}
+	return out.String()
+}
+
+func compactPlain(l string, loop bool) string {
 	for _, op := range []string{":=", "==", "!=", ">=", "<=", "=", ">", "<", "?"} {
 		l = strings.ReplaceAll(l, " "+op+" ", op)
 	}
 	l = strings.ReplaceAll(l, ", ", ",")
-	if strings.HasPrefix(l, "for ") {
+	if loop {
 		l = strings.ReplaceAll(l, "; ", ";")
 	}
 	return l
